@@ -4,7 +4,7 @@ from . import common as C, core
 
 PROOF_FILES = ["Proof/XQFacts.v", "Proof/SemFacts.v", "Proof/ExpInd.v", "Proof/AListFacts.v", "Proof/IntervalSound.v",
                "Proof/BoundsOfSound.v", "Proof/TightenSound.v", "Proof/AffineSound.v", "Proof/PropagateSound.v",
-               "Proof/PublishSound.v", "Proof/LinFrame.v", "Proof/WellFormed.v", "Proof/PublishedCompile.v"]
+               "Proof/PublishSound.v", "Proof/LinFrame.v", "Proof/WellFormed.v", "Proof/PublishedCompile.v", "Proof/ShrinkSound.v"]
 TIE = "From Rooc Require Import Base.XQ Model.Exp Model.Bounds Tie.TieC07."
 
 
